@@ -439,3 +439,80 @@ def overloads(ctx):
             ctx.ob(ok, m, '%s.%s builds %s(self, other) in that order: %s' % (c.name, d, cls.split('.')[1], [norm(r) for r in rets]))
     if n < 11:
         raise AnalysisError('C10.6 matched %d operator overloads, floor 11' % n)
+
+
+@rule('C10.11')
+def validator_verdict(ctx):
+    """a Check validator rejects by raising or by returning the object False -- nothing else: the
+    verdict test is ``validator(target) is False``.  A truth test would reject every falsy result
+    of a converting / measuring validator (int('0'), len(''), 0.0)"""
+    u = ctx.unit('matching.Check.glomit')
+    cfg = ctx.cfg(u)
+    raises = [n for n in cfg.nodes if n.kind == 'stmt' and isinstance(n.ast, ast.Raise) and n.ast.exc is not None
+              and isinstance(n.ast.exc, ast.Attribute) and n.ast.exc.attr == '_ValidationError']
+    ctx.require(len(raises) >= 1, 'Check.glomit: the validation-failure raise not found')
+    loops = [n for n in u.own_nodes() if isinstance(n, ast.For)]
+    vvars = set()
+    for lp in loops:
+        vvars.update(x.id for x in ast.walk(lp.target) if isinstance(x, ast.Name))
+    for r in raises:
+        hdr = r.loop_stack[-1] if r.loop_stack else None
+        ctl = [t for t in cfg.nodes if t.kind == 'test' and t is not hdr and hdr in t.loop_stack
+               and (r in exclusive(cfg, t, 'true') or r in exclusive(cfg, t, 'false'))]
+        ok = len(ctl) == 1
+        shown = [norm(t.ast) for t in ctl]
+        if ok:
+            t = ctl[0]
+            c = t.ast
+            ok = isinstance(c, ast.Compare) and len(c.ops) == 1 and isinstance(c.ops[0], ast.Is) \
+                and isinstance(c.comparators[0], ast.Constant) and c.comparators[0].value is False \
+                and r in exclusive(cfg, t, 'true')
+            if ok:
+                v = deref(cfg, t, c.left)
+                ok = isinstance(v, ast.Call) and is_name(v.func) and v.func.id in vvars and len(v.args) == 1 \
+                    and is_name(v.args[0], u.params[1])
+        ctx.ob(ok, u, 'a validator rejects only by returning False itself: %s' % shown,
+               '' if ok else 'any other falsy result (0, \'\', [], 0.0) of a validator is taken for a rejection', node=r.ast)
+    ctx.floor(1)
+
+
+@rule('C10.12')
+def check_default_is_an_argument(ctx):
+    """every way Check hands out its default evaluates it as an argument (arg_val: containers
+    rebuilt, nested specs replaced by their values) -- the validate= branch included: returning
+    the stored object itself gives the caller the spec's own list / an unevaluated T"""
+    u = ctx.unit('matching.Check.glomit')
+    rets = [r for r in u.own_nodes() if isinstance(r, ast.Return) and r.value is not None
+            and any(isinstance(x, ast.Attribute) and x.attr == 'default' and is_name(x.value, u.params[0]) for x in ast.walk(r.value))]
+    ctx.require(len(rets) >= 3, 'Check.glomit: default returns not found (%d)' % len(rets))
+    for r in rets:
+        ok = matches(r.value, 'arg_val(%s, %s.default, %s)' % (u.params[1], u.params[0], u.params[2]))
+        ctx.ob(ok, u, 'the default is evaluated as an argument: %s' % norm(r),
+               '' if ok else 'the stored default object itself is returned (shared between evaluations, nested specs unevaluated)', node=r)
+    ctx.floor(3)
+
+
+@rule('C10.13')
+def reflected_operators_keep_operand_order(ctx):
+    """``x & m`` with x not supporting & reaches ``m.__rand__(x)``: the result must be And(x, m)
+    (children are evaluated left to right and the last result is the value).  An alias
+    ``__rand__ = __and__`` builds And(m, x)"""
+    p = ctx.program
+    n = 0
+    for cq in ('matching._MExpr', 'matching._MType', 'matching._Bool', 'matching.And', 'matching.Or', 'matching.Not'):
+        c = ctx.cls(cq)
+        for rname, fwd, comb in (('__rand__', '__and__', 'matching.And'), ('__ror__', '__or__', 'matching.Or')):
+            if not c.defines(rname):
+                continue
+            n += 1
+            m = c.methods.get(rname)
+            ok = False
+            detail = '%s is an alias of %s: the operands are swapped' % (rname, fwd)
+            if m is not None and m.name == rname and len(m.params) == 2:
+                rets = [r for r in m.own_nodes() if isinstance(r, ast.Return)]
+                ok = len(rets) == 1 and isinstance(rets[0].value, ast.Call) and callee_qual(p, m, rets[0].value) == comb \
+                    and len(rets[0].value.args) == 2 and is_name(rets[0].value.args[0], m.params[1]) and is_name(rets[0].value.args[1], m.params[0])
+                detail = '' if ok else 'does not build %s(other, self)' % comb.split('.')[1]
+            ctx.ob(ok, c, '%s.%s builds the combinator with the left operand first' % (c.name, rname), detail)
+    ctx.require(n >= 2, 'reflected operators of M expressions not found (%d)' % n)
+    ctx.floor(2)
